@@ -10,7 +10,8 @@ from ..harness import Prop, Result
 from ..gen import worlds as GW
 
 DOCS = ["http://ex.test/d0.json", "http://ex.test/D0.json", "http://ex.test/dir/d2.json", "http://ex.test/d1.json",
-        "http://ex.test/folder/"]          # a URI may end in a slash; it is not the URI without it
+        "http://ex.test/folder/",          # a URI may end in a slash; it is not the URI without it
+        "http://ex.test/d\u00e9 1.json"]    # an IRI with a blank, used as is by whoever wrote the reference
 STORED = ["http://ex.test/stored.json", "http://ex.test/stored/"]
 META = {3: "http://json-schema.org/draft-03/schema", 4: "http://json-schema.org/draft-04/schema",
         6: "http://json-schema.org/draft-06/schema", 7: "http://json-schema.org/draft-07/schema"}
@@ -32,7 +33,8 @@ def cases(draw):
     d = draw(st.sampled_from(impl.DRAFTS))
     n = draw(st.integers(1, 4))
     docs, behaviour = {}, {}
-    for u in (DOCS[:n] if draw(st.integers(0, 3)) else [DOCS[4]] + DOCS[:n - 1]):
+    pick = draw(st.integers(0, 5))
+    for u in (DOCS[:n] if pick >= 2 else [DOCS[4 + pick]] + DOCS[:n - 1]):
         docs[u] = {"definitions": {"a": draw(leaf), "b": draw(leaf), "x/y": draw(leaf), "": draw(leaf)}}
         docs[u].update(draw(leaf))
         if draw(st.integers(0, 4)) == 0:
@@ -46,10 +48,17 @@ def cases(draw):
         # first document's scope is in force
         if len(us) >= 2 and isinstance(docs[u], dict) and "definitions" in docs[u] and draw(st.booleans()):
             docs[u]["definitions"]["r"] = {"$ref": us[(i + 1) % len(us)] + "#/definitions/a"}
+    bulk = draw(st.sampled_from([0, 0, 0, 0, 0, 70]))
+    for i in range(bulk):
+        # dozens of further documents, all well-behaved: nothing that was local or already fetched may be forgotten
+        # because of them
+        u = "http://ex.test/bulk/%d.json" % i
+        docs[u] = {"definitions": {"a": {}}, "type": ["integer", "string", "null", "object", "array", "boolean", "number"]}
+        behaviour[u] = {"mode": "ok", "exc": "OSError"}
     store_doc = draw(st.sampled_from([None, None, STORED[0], STORED[0], STORED[1]]))
     if store_doc:
         docs[store_doc] = {"definitions": {"a": draw(leaf), "": draw(leaf)}}
-    urls = sorted(docs)
+    urls = sorted(u for u in docs if "/bulk/" not in u)
     spellings = []
     for u in urls:
         spellings += [u, u + "#", u + "#/definitions/a", u + "#/definitions/b", u + "#/definitions/x~1y",
@@ -65,6 +74,10 @@ def cases(draw):
             body["properties"]["meta"] = {"$ref": "#/definitions/m0"}
         if draw(st.booleans()):
             body["items"] = {"$ref": draw(st.sampled_from(spellings))}
+        if bulk and d >= 4:
+            body["allOf"] = [{"$ref": "http://ex.test/bulk/%d.json" % i} for i in range(bulk)]
+        elif bulk:
+            body["extends"] = [{"$ref": "http://ex.test/bulk/%d.json" % i} for i in range(bulk)]
         schemas.append(body)
     insts = draw(st.lists(st.one_of(
         st.dictionaries(st.sampled_from(["p0", "p1", "p2", "p3", "meta"]), GW.inst_scalar, max_size=4),
@@ -221,7 +234,8 @@ class C15(Prop):
         if out[0] != "RefResolutionError" or any(b["mode"] == "fail-always" for b in case["behaviour"].values()):
             return
         todo = [v["$ref"] for v in schema["properties"].values()] + ([schema["items"]["$ref"]] if "items" in schema else []) \
-            + [v["$ref"] for v in (schema.get("definitions") or {}).values()]
+            + [v["$ref"] for v in (schema.get("definitions") or {}).values()] \
+            + [v["$ref"] for v in schema.get("allOf", schema.get("extends", []))]
         seen = set()
         while todo:
             r = todo.pop()
@@ -268,7 +282,8 @@ class C15(Prop):
                        for b in case["behaviour"].values())
             assert all(u in case["docs"] for u in case["behaviour"]) and all(u in case["docs"] for u in case["stored"])
             for sc in schemas:
-                for sub in list(sc["properties"].values()) + ([sc["items"]] if "items" in sc else []):
+                for sub in list(sc["properties"].values()) + ([sc["items"]] if "items" in sc else []) + list(
+                        sc.get("allOf", sc.get("extends", []))):
                     assert sub["$ref"].startswith("#/definitions/m") or sub["$ref"].split("#")[0] in case["docs"]
             for st_ in case["steps"]:
                 if st_[0] == "remote":
